@@ -3600,7 +3600,9 @@ ConnStateData::finishDechunkingRequest(bool withSuccess)
         Must(!bodyPipe); // we rely on it being nil after we are done with body
         if (withSuccess) {
             Must(myPipe->bodySizeKnown());
-            Http::StreamPointer context = pipeline.front();
+            // the body being read belongs to the most recently parsed request
+            // (see Pipeline), not to the one whose response is being written
+            Http::StreamPointer context = pipeline.back();
             if (context != nullptr && context->http && context->http->request)
                 context->http->request->setContentLength(myPipe->bodySize());
         }
